@@ -211,7 +211,7 @@ func VH_C16_Flat(p []int) {
 }
 
 // vhRowKinds: entry kinds offered inside CONDITION rows.
-var vhRowKinds = []int{8, 17, 10, 12, 15, 14, 9, 13, 16, 11}
+var vhRowKinds = []int{8, 17, 10, 12, 15, 20, 14, 13, 16, 11, 21, 9}
 
 // p: fields after the label (0..5), nested (0: the row is the whole input,
 // 1: the row is an element of an AND stack), label casing (0 upper, 1 lower),
